@@ -769,6 +769,26 @@ func c09DefaultsNoSharing(w *World, r *Report) {
 		r.Ob(ri, fmt.Sprintf("%s|carrier-copied#%d", w.FnName(fn), m), a.Pos(), copies <= 1,
 			fmt.Sprintf("the struct value %s carries a reference value and is copied into %d places: all copies share that storage", a.Comment, copies))
 	}
+	// 3. and the defaults are built afresh for every load: a value kept in a package-level variable
+	// and handed out as a struct copy shares its maps, slices and pointers between all loads
+	fresh := true
+	var gname string
+	for _, ret := range returnsOf(fn) {
+		for _, rv := range ret.Results {
+			dependsOn(w, rv, func(x ssa.Value) bool {
+				if u, ok := x.(*ssa.UnOp); ok && u.Op == token.MUL {
+					if g, isG := u.X.(*ssa.Global); isG && g.Pkg != nil && g.Pkg.Pkg != nil && strings.HasPrefix(g.Pkg.Pkg.Path(), modPath) {
+						if _, isStruct := u.Type().Underlying().(*types.Struct); isStruct {
+							fresh = false
+							gname = g.Name()
+						}
+					}
+				}
+				return false
+			})
+		}
+	}
+	r.Ob(ri, w.FnName(fn)+"|defaults-built-per-load", fn.Pos(), fresh, "the defaults are a copy of the package-level variable "+gname+": the maps / slices / pointers inside it are shared by every configuration loaded in this process, and the loader decodes into them")
 	if n == 0 {
 		r.Undecided(ri, "no reference-typed default value found in defaultConfig (anchor lost?)")
 	}
